@@ -77,6 +77,12 @@ def make_extreme_program(rng, T0, horizon, mix=None, last_time=None, aim_pole=Fa
             target = float(k.b) / (rng.uniform(296.0, 311.0) - float(k.a)) - float(k.c)
             if 1.0 < target < T0:
                 return pv.TemperatureProgram(coefficients=[T0, -(T0 - target) / last_time], type="polynomial")
+    if last_time is not None and rng.random() < 0.15:
+        # a programme that is inadmissible AT t = 0 ONLY (0 K, negative, -inf or undefined there) and ordinary from the first step on:
+        # the series starts at the stated initial temperature, the programme is asked from t = dt on
+        dt = max(h - last_time, 1e-12)
+        c1 = rng.choice([0.0, 1.0, 0.5, -1.0])
+        return pv.TemperatureProgram(coefficients=[T0 / math.log(1e6), c1, (1e6 - c1) / dt], type="logarithmic")
     if u < 0.4:                         # linear, reaching 1..30 K at the end
         return pv.TemperatureProgram(coefficients=[T0, -(T0 - gen.logu(rng, 0.3, 30.0)) / h], type="polynomial")
     if u < 0.7:                         # exponential that overflows to +inf before the end
